@@ -38,6 +38,36 @@ CLAIMS = {
     'C17': ('Asm.tla include brackets (IncludeIsPaste) + Include.tla include graphs, both replayed with real files/directories',
             'IncludeIsPaste (split = pasted where pasting is expressible) and scope/zone/region continuation model-checked for every bracketed program up to the bound; every include graph over two library files x every placement of copies x -I sets x duplicate spellings is enumerated and replayed (twice / missing / ambiguous rejections).',
             'conditional chains spanning an include boundary are left open; two library files.'),
+    'C01': ('Bits.tla/Pack.tla (packing machine = flat layout) + Encode.tla (field list from variant configuration) replayed into PackedBits / AssembledInstruction and end to end through generated ISA definitions',
+            'MachineEqualsLayout, EachFieldAtItsOffset, AlignedOnByteBoundary, LengthIsCeil8, PaddingIsZero, LittleIsByteReversed model-checked for every field list up to 2-3 fields over widths 1..16 x alignment x byte order x boundary values; GroupsInOrder and ReverseTouchesOnlyItsGroup for every variant layout up to 2 operands; every list is replayed into the real packer and every layout into a generated ISA definition whose statement is assembled at two addresses in two different programs (bytes must equal the layout, independent of context).',
+            'field widths in the TLC instances are at most 16 bits (TLC integers are 32 bit); operand types realising the fields are rotated over nine types.'),
+    'C07': ('Expr.tla (descent machine = split evaluator) + Literals.tla, every token string replayed into parse_expression/get_value',
+            'DescentEqualsSplit, LeftAssoc, UnaryBindsTightest model-checked on ALL token strings up to length 5-6 over a core alphabet and on all well-formed expressions up to length 7-9 over three alphabets covering every operator, unary minus, LSB/BYTEn, labels and junk; Literals.tla enumerates digit strings in all seven notations; every string is evaluated by the real parser (spaced and compact spelling) and a sample end to end through .4byte.',
+            'values are exact rationals in the model; results beyond 2^24 and the cases the property leaves open (negative %, bitwise/shift on non-integers or negatives) are skipped and counted.'),
+    'C09': ('Symbols.tla (recursive expansion = leftmost/rightmost single-step rewriting) replayed line by line into one Preprocessor object and end to end',
+            'UniqueNormalForm, NoDefinedSymbolRemains, OnlyWholeWords, CycleRejected, RedefinitionRejected model-checked for every history up to 4-5 lines of definitions and uses over identifiers that are prefixes/suffixes/infixes of one another, with and without ISA- and command-line-defined symbols; every history replayed into the real Preprocessor (same object across lines) and a sample through #define/.byte/-D/predefined.symbols.',
+            'identifier universe of four names; a cyclic symbol that is never used is not required to be rejected.'),
+    'C10': ('Macro.tla (variant selection, placeholder filling, per-step assembly with Bits!Flat) replayed through generated ISA definitions with macros, plus the hand-expanded sequence',
+            'SizeIsSum and StepsAreWholeBytes model-checked for every macro of up to 2-3 steps over 11 step templates (4/8/12/16-bit steps, @ARG/@REG/@OP, address-relative steps from start and end) x 5 operand patterns x optional second variant x 7 invocations (literal, forward/backward label, register, indirect, two operands, none); the real assembler must produce the expanded bytes and the following label value, reject unfillable placeholders, and give the same image for the hand-expanded sequence.',
+            'fixed base instruction set of seven instructions.'),
+    'C11': ('Data.tla (arbitrary-precision two\'s complement reduction, strings as character codes, fills) replayed end to end',
+            'LengthIsWidthTimesCount, HighBytesIrrelevant, NegationIsComplement, ZeroUntilInclusive model-checked over every scenario: widths 1/2/4/8 x both byte orders x values on every boundary of every width (to 10 bytes, both signs), strings of up to 2-3 characters over 12 plain and escaped characters in five directive forms with three terminators, fills/zero/zerountil around the current address; each scenario spelled in rotating notations (decimal, $hex, 0x, unary minus, forward-label-relative) and assembled.',
+            'characters limited to printable ASCII and the listed escapes.'),
+    'C12': ('Constraints.tla (ordered checks = declarative admissible set) replayed through generated ISA definitions',
+            'RejectIffInadmissible, WidthRange, FieldFits model-checked over: all widths 1..9 with ALL values in [-2^w-2, 2^w+2] and 12/16/20 around every boundary, min/max grids, relative offsets from instruction start and last byte (sizes 2 and 3, 4- and 8-bit fields), numeric enumerations, zone membership under a predefined zone and a redefined GLOBAL, sliced addresses around page boundaries; each scenario assembled and compared on accept/reject and the value carried by the field.',
+            'slice_lsb without match_address_msb left open.'),
+    'C13': ('Match.tla (nested loops = least accepting choice) replayed through generated deliberately ambiguous ISA definitions',
+            'SelectedIsLeastAccepting, RegisterNeverNumeric, NoAcceptingMeansRejected model-checked for ISAs of up to 2-3 variants built from specific operand lists and a catalogue of eleven overlapping operand sets (definition order different from rank order, same-type ties, disallowed pairs) x eleven operand text classes; the bytes name the chosen variant and alternatives; all statements an ISA accepts are also assembled together in three orders (history independence).',
+            'the acceptance predicate per operand type over text classes is part of the specification.'),
+    'C18': ('Lexer.tla (Tokenize(Render(P, c)) = P) with every rendering spelled and assembled',
+            'RoundTrip model-checked for every statement list up to 2-4 statements x per-statement style (case, blank kind/amount, comments incl. quotes/semicolons, own line / joined / blank line); each rendering is assembled by the real code and must give Bytes(P).',
+            'only the rewrites the property lists; styles beyond two statements use a 10-style covering subset.'),
+    'C19': ('Config.tla (ordered loader checks = well-formedness; version order; #require) replayed through generated definitions',
+            'ValidateIffWellFormed, SingleFaultRejected, GateIsVersionOrder, OperatorsConsistent model-checked over 6 base shapes x 20 single faults, min_version over release triples and pre-releases against running/minimum versions, #require over operators x versions x name match; every scenario generated as a real definition/program; all repository definitions loaded.',
+            'fault catalogue is fixed; accepted = a two-line program assembles.'),
+    'C20': ('Ext.tla (vocabulary -> class of each probe word) compared with the syntax patterns of both generated packages',
+            'VocabularyClassified model-checked for all 1920 well-formed vocabularies; for each, both real generators are run, every produced file parsed (JSON/YAML/plist/XML/zip) and searched for placeholder residue, and each of 75 probes classified by the generated patterns must equal Class(probe); repository definitions likewise.',
+            'Python re stands for Oniguruma on the constructs the templates use; well-formedness decided by standard parsers.'),
 }
 
 NOT_YET = {}
